@@ -107,6 +107,25 @@ func setOutgoingHeader(header http.Header, md metadata.MD) {
 	}
 }
 
+// setOutgoingTrailer sets the metadata as HTTP trailers. The keys are not
+// known when the headers are written, so they carry http.TrailerPrefix.
+func setOutgoingTrailer(header http.Header, md metadata.MD) {
+	for k, vs := range md {
+		if isReservedHeader(k) {
+			continue
+		}
+
+		if strings.HasSuffix(k, binHdrSuffix) {
+			dst := make([]string, len(vs))
+			for i, v := range vs {
+				dst[i] = encodeBinHeader([]byte(v))
+			}
+			vs = dst
+		}
+		header[http.TrailerPrefix+textproto.CanonicalMIMEHeaderKey(k)] = vs
+	}
+}
+
 func encodeGrpcMessage(msg string) string {
 	var (
 		sb  strings.Builder
@@ -594,13 +613,11 @@ func (m *Mux) serveGRPC(w http.ResponseWriter, r *http.Request) {
 		}
 		h.Set("Grpc-Status-Details-Bin", encodeBinHeader(stBytes))
 	}
-	setOutgoingHeader(h, stream.trailer)
+	setOutgoingTrailer(h, stream.trailer)
 
 	if sh := m.opts.statsHandler; sh != nil {
 		endTime := time.Now()
 
-		// Try to send Trailers, might not be respected.
-		setOutgoingHeader(w.Header(), stream.trailer)
 		sh.HandleRPC(ctx, &stats.OutTrailer{
 			Trailer: stream.trailer.Copy(),
 		})
